@@ -30,7 +30,8 @@ CONSTANTS NSym,       \* alphabet = 1..NSym
           Vals,       \* set of non-empty values (positive integers)
           CheckKeys,  \* keys the proof invariants quantify over (subset of Keys)
           MaxOps,     \* bound on the number of calls in a behaviour
-          KeepHist    \* record the call history (needed to emit behaviours; off for trace validation)
+          KeepHist,   \* record the call history (needed to emit behaviours; off for trace validation)
+          Ops         \* names of the calls enabled in this model
 
 NoVal  == 0     \* empty value / absent
 Reject == -1    \* VerifyProof returned an error
@@ -41,10 +42,13 @@ VARIABLES root,       \* the live trie (trie.Trie.root), a node
           committed,  \* Commit was called at least once
           croot,      \* root returned by the last Commit
           ccontent,   \* ghost: content at the last Commit
+          oroot,      \* a second handle on the trie made by Trie.Copy (SecureTrie.Copy, state.Database.CopyTrie): its root
+          ocontent,   \* ghost: the mapping the holder of the second handle believes is stored
+          hasother,   \* Copy was called
           step, obs, hist
 
-vars == <<root, content, store, committed, croot, ccontent, step, obs, hist>>
-view == <<root, content, store, committed, croot, ccontent, step>>
+vars == <<root, content, store, committed, croot, ccontent, oroot, ocontent, hasother, step, obs, hist>>
+view == <<root, content, store, committed, croot, ccontent, oroot, ocontent, hasother, step>>
 
 ----------------------------------------------------------------------------
 \* node constructors
@@ -258,11 +262,17 @@ StackAgrees(cn, n) == LET s == StackOf(cn) IN ~HasPanic(s) /\ Unfreeze(s) = n
 ----------------------------------------------------------------------------
 Rec(op, k, v, k2, i, kind) == [op |-> op, k |-> k, v |-> v, k2 |-> k2, i |-> i, kind |-> kind]
 
-\* every call record carries the specified result and the specified content after the call
-Log(rec, o) ==
+\* every call record carries the specified result and the specified content after the call - of the handle the
+\* call was made on (c) and of the other handle (oc; ho = there is one): a call on one handle never changes what the
+\* other one holds
+LogBase(rec, o) ==
     /\ obs'  = o
-    /\ hist' = IF KeepHist THEN Append(hist, rec @@ [res |-> o, c |-> ContentSeq(content')]) ELSE hist
+    /\ hist' = IF KeepHist
+               THEN Append(hist, rec @@ [res |-> o, c |-> ContentSeq(content'), oc |-> ContentSeq(ocontent'), ho |-> hasother'])
+               ELSE hist
     /\ step' = step + 1
+Log(rec, o) == UNCHANGED <<oroot, ocontent, hasother>> /\ LogBase(rec, o)
+On(name) == name \in Ops
 
 OK == <<"ok">>
 
@@ -273,6 +283,7 @@ Init ==
     /\ committed = FALSE
     /\ croot = E
     /\ ccontent = [k \in Keys |-> NoVal]
+    /\ oroot = E /\ ocontent = [k \in Keys |-> NoVal] /\ hasother = FALSE
     /\ step = 0
     /\ obs = <<"init">>
     /\ hist = <<>>
@@ -343,15 +354,30 @@ StackBuild ==
     /\ UNCHANGED <<root, content, store, committed, croot, ccontent>>
     /\ Log(Rec("stack", <<>>, 0, <<>>, 0, ""), <<"stack", StackAgrees(content, root)>>)
 
+\* Trie.Copy(): a second, independent handle on the same content; the two share every node in memory
+\* (copy-on-write), and from here on each is modified on its own
+Copy ==
+    /\ oroot' = root /\ ocontent' = content /\ hasother' = TRUE
+    /\ UNCHANGED <<root, content, store, committed, croot, ccontent>>
+    /\ LogBase(Rec("copy", <<>>, 0, <<>>, 0, ""), OK)
+
+\* the caller goes on with the other handle
+Swap ==
+    /\ hasother
+    /\ root' = oroot /\ content' = ocontent /\ oroot' = root /\ ocontent' = content
+    /\ UNCHANGED <<hasother, store, committed, croot, ccontent>>
+    /\ LogBase(Rec("swap", <<>>, 0, <<>>, 0, ""), OK)
+
 MaxPath == 1 + MaxOf({Len(k) : k \in Keys} \cup {0})
 
 Next ==
     /\ step < MaxOps
-    /\ \/ \E k \in Keys, v \in Vals \cup {NoVal} : Update(k, v)
-       \/ \E k \in Keys : Delete(k) \/ Get(k) \/ Prove(k)
-       \/ Hash \/ Commit \/ Reload \/ StackBuild
-       \/ \E k \in CheckKeys, k2 \in CheckKeys : VerifyOther(k, k2)
-       \/ \E k \in CheckKeys, i \in 1..MaxPath, kind \in CorruptKinds : CorruptProof(k, i, kind)
+    /\ \/ \E k \in Keys, v \in Vals \cup {NoVal} : On("update") /\ Update(k, v)
+       \/ \E k \in Keys : (On("delete") /\ Delete(k)) \/ (On("get") /\ Get(k)) \/ (On("prove") /\ Prove(k))
+       \/ (On("hash") /\ Hash) \/ (On("commit") /\ Commit) \/ (On("reload") /\ Reload) \/ (On("stack") /\ StackBuild)
+       \/ (On("copy") /\ Copy) \/ (On("swap") /\ Swap)
+       \/ \E k \in CheckKeys, k2 \in CheckKeys : On("verify") /\ VerifyOther(k, k2)
+       \/ \E k \in CheckKeys, i \in 1..MaxPath, kind \in CorruptKinds : On("corrupt") /\ CorruptProof(k, i, kind)
 
 Spec == Init /\ [][Next]_vars
 
@@ -368,6 +394,9 @@ TypeOK ==
 Canonical == root = Build(Pairs(content))
 
 GetMatchesContent == \A k \in Keys : Lookup(root, k) = content[k]
+
+\* ... and so is the other handle's, whatever was done through the first one since the copy
+OtherCanonical == hasother => (oroot = Build(Pairs(ocontent)) /\ \A k \in Keys : Lookup(oroot, k) = ocontent[k])
 
 \* what Commit wrote can be read back completely and is the trie of the content at commit time
 CommitReloadPreserves ==
